@@ -12,7 +12,7 @@ COQ_TARGETS = ["Properties/C15", "Pins/C15", "Typed/Font"]
 THEOREMS = [("PdfV.Properties.C15", n) for n in
             ["C15_value_rt", "C15_fields_rt", "C15_dict_rt", "C15_generated_wf", "C15_generated_indirect",
              "C15_generated_value_rt", "C15_hand_Rectangle", "C15_hand_Matrix", "C15_hand_Date", "C15_hand_Action",
-             "C15_dict_rt_read", "C15_int_real", "C15_top_rt", "C15_top_rt_maybe_ref", "C15_generated_top_wf"]]
+             "C15_dict_rt_read", "C15_int_real", "C15_top_rt", "C15_top_rt_maybe_ref", "C15_generated_top_wf", "C15_hand_Encoding", "C15_hand_NameTree"]]
 import os as _os
 if _os.environ.get("VP_DEV_NOTHM"):      # development only: correspondence without the proof targets
     COQ_TARGETS, THEOREMS = ["Typed/Run"], []
@@ -140,11 +140,12 @@ PARAM_FILTERS = ("FlateDecode", "LZWDecode")
 STREAM_KEYS = ("Length", "Filter", "DecodeParms", "F", "FFilter", "FDecodeParms")
 
 
-def eff_filters(d):
-    """what a stream dictionary says about its filters (ISO 32000-1 Table 5): [(name, non-default parameters)]"""
-    f = d.get("Filter")
+def eff_filters(d, fk="Filter", pk="DecodeParms"):
+    """what a stream dictionary says about its filters (ISO 32000-1 Table 5): [(name, non-default parameters)];
+    fk/pk = FFilter/FDecodeParms: the filters of the external file"""
+    f = d.get(fk)
     names = [] if f is None else ([f] if isinstance(f, Name) else list(f))
-    p = d.get("DecodeParms")
+    p = d.get(pk)
     parms = [] if p is None else ([p] if isinstance(p, dict) else list(p))
     out = []
     for i, n in enumerate(names):
@@ -167,9 +168,13 @@ def check_stream(d, keep_all):
         w1 = T.uncanon(f[1])
         if eff_filters(w1) != eff_filters(d):
             return "filters/parameters changed: %r -> %r" % (eff_filters(d), eff_filters(w1))
+        if eff_filters(w1, "FFilter", "FDecodeParms") != eff_filters(d, "FFilter", "FDecodeParms"):
+            return "file filters/parameters changed: %r -> %r" % (eff_filters(d, "FFilter", "FDecodeParms"), eff_filters(w1, "FFilter", "FDecodeParms"))
+        if d.get("F") is not None and not (isinstance(w1.get("F"), dict) and T.equiv(d["F"], w1["F"], {})):
+            return "entry /F (the external file) lost or changed: %r -> %r" % (d["F"], w1.get("F"))
         if keep_all:
             for k, v in d.items():
-                if v is None or k in ("Filter", "DecodeParms", "Length"):
+                if v is None or k in ("Filter", "DecodeParms", "Length", "FFilter", "FDecodeParms"):
                     continue
                 if k not in w1:
                     return "entry /%s lost" % k
@@ -209,12 +214,17 @@ def stream_cases(rng, tier):
                 continue
             e.update(d)
             cls = []
-            if rng.random() < 0.25:
-                e[rng.choice(["F", "FFilter"])] = rng.choice([{"EF": {}}, Name("ASCIIHexDecode")])
-                if "F" in e and not isinstance(e["F"], dict):
-                    e["F"] = {"EF": {}}
-                if "FFilter" in e and isinstance(e["FFilter"], dict):
-                    e["FFilter"] = Name("ASCIIHexDecode")
+            if rng.random() < 0.35:
+                # the data lives in an external file (Table 5: /F, /FFilter, /FDecodeParms — one entry per file filter)
+                e["F"] = rng.choice([{"EF": {}}, {"EF": {"F": Ref(7)}}, {"EF": {"F": Ref(7), "UF": Ref(8, 1)}}])     # FileSpec declares /EF only
+                fn = [rng.choice(["ASCIIHexDecode", "FlateDecode", "LZWDecode"]) for _ in range(rng.randrange(3))]
+                if len(fn) == 1:
+                    e["FFilter"] = Name(fn[0]) if rng.random() < 0.5 else [Name(fn[0])]
+                elif fn:
+                    e["FFilter"] = [Name(x) for x in fn]
+                fp = [({"Predictor": 12, "Columns": rng.choice([4, 9])} if x in PARAM_FILTERS and rng.random() < 0.6 else None) for x in fn]
+                if any(x is not None for x in fp):
+                    e["FDecodeParms"] = fp[0] if len(fp) == 1 and rng.random() < 0.5 else fp
                 cls = ["class:stream-file"]
             yield Case("typed_roundtrip", fields_line("Stream<ImageDict>", e, []), check=check_stream(e, True), model=False, tags=tags + cls)
 
@@ -510,12 +520,8 @@ def nontrivial(c):
 
 def classify(case, impl, model):
     tags = case.tags
-    if impl and impl[0] == "PANIC" and "types.rs" in str(impl[1]) and "ObjectWrite for NameTree" in str(impl[1:]):
-        return "C15-c"          # the panic site and message of NameTree::to_primitive, wherever the tree is nested
     if "class:font-other" in tags and impl and impl[0] == "OK":
         return "C15-e"
-    if "class:stream-file" in tags and impl and impl[0] == "OK":
-        return "C15-g"
     if "class:stream-direct" in tags and impl and impl[0] == "OK":
         return "C15-i"
     return None
@@ -528,8 +534,6 @@ def witness_case(f, c):
         objs = [T.uncanon(x) for x in c.fields[2:]]
         if name.startswith("Stream<"):
             c.check, c.model = check_stream(v, name != "Stream<()>"), False
-            if f["id"] == "C15-g":
-                c.tags.add("class:stream-file")
         elif name == "Font":
             c.check, c.model = check_font(v), False
             c.tags.add("class:font-other")
